@@ -21,7 +21,9 @@ fn main() -> ExitCode {
                 let rc = std::rc::Rc::new(std::cell::RefCell::new(world));
                 gamedig::verif_hook::install(Box::new(gdsim::world::SimBackend(rc.clone())));
                 // the HTTP client's transport and clock (vendor/ureq) lead to the same world
-                gdsim::install_http_transport(Box::new(gdsim::world::SimBackend(rc)));
+                gdsim::install_http_transport(Box::new(gdsim::world::SimBackend(rc.clone())));
+                // and so do sleeps
+                gdsim::sleephook::set_world(Some(rc));
             }
             Err(e) => {
                 eprintln!("HARNESS-ERROR clisim: bad scenario file {path}: {e}");
